@@ -240,22 +240,21 @@ ind!(AdxRef { win: Hist<C5>, pc: f64, atr: Box<dyn RefAvg>, pdi: Box<dyn RefAvg>
 	let tr = rounded(c.h.max(s.pc) - c.l.min(s.pc));
 	let atr = s.atr.next(tr);
 	// zero branch: the averaged true range is not positive
-	let zero = match atr.gt(ex(0.0)) {
-		Tri::F => true,
-		Tri::T => false,
-		// undecidable from the reference, and the two branches leave different states behind
-		Tri::A => return Err(Cut("ADX zero test of the averaged true range within rounding")),
-	};
-	let (p, m): (Option<Ap>, Option<Ap>) = if zero {
-		(Some(ex(0.0)), Some(ex(0.0)))
-	} else {
-		s.pc = c.c;
-		let (du, dd) = (c.h - prev.h, prev.l - c.l);
-		let pdm = if du > dd && du > 0.0 { du } else { 0.0 };
-		let mdm = if dd > du && dd > 0.0 { dd } else { 0.0 };
-		// averaged movements are clamped at zero (they are averages of non-negative values)
-		let clamp = |a: Ap| if a.v < -a.e { ex(0.0) } else { Ap::new(a.v.max(0.0), a.e) };
-		(clamp(s.pdi.next(rounded(pdm))).div(atr), clamp(s.mdi.next(rounded(mdm))).div(atr))
+	// the three averages of method1 advance on every candle (they are averages over the same bars); only the
+	// division depends on the zero test of the averaged true range
+	s.pc = c.c;
+	let (du, dd) = (c.h - prev.h, prev.l - c.l);
+	let pdm = if du > dd && du > 0.0 { du } else { 0.0 };
+	let mdm = if dd > du && dd > 0.0 { dd } else { 0.0 };
+	// averaged movements are clamped at zero (they are averages of non-negative values)
+	let clamp = |a: Ap| if a.v < -a.e { ex(0.0) } else { Ap::new(a.v.max(0.0), a.e) };
+	let (pa, ma) = (clamp(s.pdi.next(rounded(pdm))), clamp(s.mdi.next(rounded(mdm))));
+	let (p, m): (Option<Ap>, Option<Ap>) = match atr.gt(ex(0.0)) {
+		// zero branch: the averaged true range is not positive
+		Tri::F => (Some(ex(0.0)), Some(ex(0.0))),
+		Tri::T => (pa.div(atr), ma.div(atr)),
+		// undecidable from the reference: the directional values of this step are exempt
+		Tri::A => (None, None),
 	};
 	// the state of the second average follows the returned directional values when they are exempt
 	let pp = p.unwrap_or(Ap::new(got[1], 0.0));
